@@ -100,7 +100,8 @@ ObsOK(obs) == ObsOKIn(live, obs)
 \* ---------------------------------------------------------------- new block checks (C01, C03, C04, C15)
 DefaultAlign(n) == IF n >= 16 THEN 16 ELSE 8
 
-NoOverlap(a, e) == \A b \in LiveIds : DisjointR(a, e, live[b].a, live[b].e)
+\* disjoint usable ranges, and distinct addresses even for zero-size blocks (whose usable range may be empty)
+NoOverlap(a, e) == \A b \in LiveIds : DisjointR(a, e, live[b].a, live[b].e) /\ live[b].a # a
 
 ArenaOf(h) == IF h \in DOMAIN heaps THEN heaps[h].arena ELSE 0
 
@@ -364,8 +365,8 @@ ThreadDone(ev) ==
 OsRefused == osfail' = [x \in DOMAIN osfail |-> TRUE]
 
 \* ---------------------------------------------------------------- state invariants (checked by TLC in MC and on every trace state)
-LiveDisjoint == \A b1, b2 \in LiveIds : b1 # b2 => DisjointR(live[b1].a, live[b1].e, live[b2].a, live[b2].e)
-LiveWellFormed == \A b \in LiveIds : live[b].us >= live[b].req /\ live[b].wr <= live[b].us /\ LtA(live[b].a, live[b].e)
+LiveDisjoint == \A b1, b2 \in LiveIds : b1 # b2 => (DisjointR(live[b1].a, live[b1].e, live[b2].a, live[b2].e) /\ live[b1].a # live[b2].a)
+LiveWellFormed == \A b \in LiveIds : live[b].us >= live[b].req /\ live[b].wr <= live[b].us /\ LeA(live[b].a, live[b].e)
 HeapsOK == /\ \A t \in DOMAIN dflt : dflt[t] \in DOMAIN heaps /\ heaps[dflt[t]].t = t
            /\ \A t \in DOMAIN backing : backing[t] \in DOMAIN heaps /\ heaps[backing[t]].backing
 BlocksHaveHeaps == \A b \in LiveIds : live[b].h = 0 \/ live[b].h \in DOMAIN heaps
